@@ -37,6 +37,10 @@ CLAIMS.update({
                 design="DESIGN.md section 5 C17"),
     "C18": dict(technique="static analysis: interprocedural may-depend (must-depend queries per XOF binding), absorption-shape and guard-relation rules over MIR",
                 design="DESIGN.md section 5 C18"),
+    "C09": dict(technique="static analysis (partial): number-theoretic relations of the compiler-evaluated field constants checked by integer arithmetic in the checker (orders of G and ROOTS, MU, R2, HALF, BIT_MASK, primality), accessor/wiring/projection term rules and the reviewed conditional-subtraction shape over MIR; the multiplier core is not decided",
+                design="DESIGN.md section 5 C09"),
+    "C10": dict(technique="static analysis (partial): guard-relation rules with thresholds evaluated against MAX_ROOTS/NUM_ROOTS, error propagation, and structural necessary conditions (loop ranges, butterfly stores, every-iteration updates, overwrite-not-accumulate) of the NTT and Lagrange routines over MIR; numerical equality with the definitions is not decided",
+                design="DESIGN.md section 5 C10"),
     "C11": dict(technique="static analysis: absorption-shape, loop-range/offset term matching modulo normalisation, ordering-by-dominance (advance-before-classify, refill order), guard-relation and constant (mask = 2^bitlen(p)-1) rules over MIR",
                 design="DESIGN.md section 5 C11"),
     "C14": dict(technique="static analysis: structural extraction of the rayon fold/map/reduce pipeline (identities are zero vectors, op is element-wise field addition), sibling agreement with the serial gadget and serial constructors, who-may-call rayon, captured-state write check over MIR (feature multithreaded)",
